@@ -64,6 +64,14 @@ theorem string_refines_codec_reference (ms ch : Nat) (hch : 0 < ch) (ops : List 
   have h := SStr.run_spec (SStr.init ms ch) File.empty ops (SRel_init ms ch hch) hv
   exact ⟨h.1, h.2.2.1, h.2.1.data⟩
 
+/-- the same, for the chunk size the source actually uses (regenerated from boltons/ioutils.py on every run) -/
+theorem string_refines_codec_reference_real (ms : Nat) (ops : List (Op Char))
+    (hv : validS File.empty ops = true) :
+    ((SStr.init ms C18.Generated.READ_CHUNK_SIZE).run ops).1 = (Spec.run codecSem File.empty ops).1 ∧
+    ((SStr.init ms C18.Generated.READ_CHUNK_SIZE).run ops).2.tell = (Spec.run codecSem File.empty ops).2.pos :=
+  ⟨(string_refines_codec_reference ms _ real_chunk_size_pos ops hv).1,
+   (string_refines_codec_reference ms _ real_chunk_size_pos ops hv).2.1⟩
+
 /-- outputs, final position and final content do not depend on `max_size` (nor on the read chunk size) -/
 theorem rollover_invisible_string (ops : List (Op Char)) (hv : validS File.empty ops = true)
     (ms₁ ms₂ ch₁ ch₂ : Nat) (h₁ : 0 < ch₁) (h₂ : 0 < ch₂) :
@@ -147,15 +155,24 @@ theorem mfr_seek0_restarts (cs : List (List α)) (ops : List MOp) :
 
 /-! ## non-vacuity: concrete histories inside the hypotheses -/
 
-/-- a history with a rollover (max_size 4), multi-byte text, a read that stops inside a character's bytes,
-    a code-point seek, `len` and iteration — it satisfies `validS` and `plainS` -/
+/-- a history with a rollover (by max_size 4, or explicit), multi-byte text, a read that stops inside a
+    character's bytes, a code-point seek, `len` and iteration — it satisfies `validS` and `plainS` -/
 def demoS : List (Op Char) :=
   [.write ['a', 'é', 'é', '\n'], .seek 0, .read 2, .len, .readline, .seekEnd 0, .write ['日', '\r', '\n', 'x'],
-   .seek 3, .list, .getvalue, .tell]
+   .seek 3, .next, .rollover, .list, .getvalue, .tell]
 
 example : validS File.empty demoS = true ∧ plainS File.empty demoS = true := by decide +kernel
 example : ((SStr.init 4 2).run demoS).1 = (Spec.run textSem File.empty demoS).1 := by decide +kernel
-example : ((SStr.init 4 2).run demoS).2.rolled = true ∧ ((SStr.init 1000 2).run demoS).2.rolled = false := by
+example : ((SStr.init 4 2).run (demoS.take 9)).2.rolled = true ∧
+    ((SStr.init 1000 2).run (demoS.take 9)).2.rolled = false := by
+  decide +kernel
+/-- the codec reader really holds state in this history: after `read(2)` on "aéé\n" the first code unit of the
+    third character sits in the byte buffer, so the stream (offset 4) is ahead of the logical position (3 bytes);
+    after `read(2)` on "éab" the decoded 'b' waits in the character buffer -/
+example : ((SStr.init 1000 2).run (demoS.take 3)).2.rd.bytebuf = [('é', 0)] ∧
+    ((SStr.init 1000 2).run (demoS.take 3)).2.st.pos = 4 ∧ ((SStr.init 1000 2).run (demoS.take 3)).2.tell = 2 := by
+  decide +kernel
+example : ((SStr.init 1000 2).run [.write ['é', 'a', 'b'], .seek 0, .read 2]).2.rd.charbuf = ['b'] := by
   decide +kernel
 
 def demoB : List (Op Byte) :=
